@@ -1,6 +1,7 @@
 import MesaModel.Proofs.Legacy
 import MesaModel.Proofs.LegacyHist
 import MesaModel.Proofs.LegacyNetState
+import MesaModel.Proofs.LegacyReads
 /-!
 # C18 (legacy-grid part) — a mutating call that raises leaves all observable state unchanged
 
@@ -75,6 +76,27 @@ theorem C18_legacy_rejected_calls_deletable (g : Grid) (hw : 0 < g.w) (hh : 0 < 
   have i1 := (run_inv_cfg g ops hw hh hi hok).1
   have i2 := (run_inv_cfg g (accepted g ops) hw hh hi h2).1
   exact (step_cong op (run g ops) (run g (accepted g ops)) i1 i2 h1).1
+
+/-- **…and every later read shows the same**: after a history and after the same history without its rejected
+    calls, every read — `empties` (whether or not a rejected `move_to_empty` has meanwhile built the private set),
+    `exists_empty_cells`, `is_cell_empty` (any integers), `empty_mask`, `agents`, indexing in all its forms, cell
+    lists, contents and `pos` (hence neighbours) — gives the same answer -/
+theorem C18_legacy_reads_same_after_deletion (g : Grid) (hw : 0 < g.w) (hh : 0 < g.h) (hi : Inv g) (ops : List Op)
+    (hok : HistOk g ops) :
+    let g1 := run g ops
+    let g2 := run g (accepted g ops)
+    g2.readEmpties.2 = g1.readEmpties.2 ∧ g2.existsEmpty.2 = g1.existsEmpty.2 ∧
+    (∀ p, g2.isCellEmptyRaw p = g1.isCellEmptyRaw p) ∧ g2.mask = g1.mask ∧ g2.agentsList = g1.agentsList ∧
+    (∀ p, g2.getItem p = g1.getItem p) ∧
+    (∀ ix iy, g2.getItem2 ix iy = g1.getItem2 ix iy) ∧ (∀ i, g2.getColumn i = g1.getColumn i) ∧
+    (∀ ps, g2.getMany ps = g1.getMany ps) ∧ g2.content = g1.content ∧ g2.pos = g1.pos ∧
+    (∀ cells, g2.rawCells cells = g1.rawCells cells) ∧ (∀ cells, cellsContents g2 cells = cellsContents g1 cells) ∧
+    g2.dim = g1.dim := by
+  intro g1 g2
+  obtain ⟨h1, h2⟩ := run_accepted ops g g hw hh hi hi rfl hok
+  have i1 := (run_inv_cfg g ops hw hh hi hok).1
+  have i2 := (run_inv_cfg g (accepted g ops) hw hh hi h2).1
+  exact reads_cong g1 g2 i1 i2 ((obsEq_iff_forget _ _).mpr h1)
 
 /-- **NetworkGrid: a rejected call changes nothing at all** — `place_agent` / `move_agent` to a node that does
     not exist (NG1: `move_agent` used to remove the agent first), `remove_agent` / `move_agent` of an agent that
